@@ -57,7 +57,9 @@ func Range(c Collection, ids []string, filter *Filter, sort []string, size uint,
 	if skip >= len(col.col) {
 		col = sortedResources{}
 	} else {
-		for i := skip; i < len(col.col) && i < skip+int(size); i++ {
+		// The number of resources already taken is compared with size as
+		// an unsigned number: int(size) is negative for huge sizes.
+		for i := skip; i < len(col.col) && uint(i-skip) < size; i++ {
 			page = append(page, col.col[i])
 		}
 	}
